@@ -74,6 +74,12 @@ arb_harness!(c03_t_arb_n_r0, Pat::N, 0, 0);
 /// (2) genuine message written by a real endpoint through the ideal AEAD; the delivered bytes differ from it only
 /// from the first encrypted field on (symbolic byte position and value, or a symbolic truncation / 1-byte extension).
 pub fn altered_encrypted_part(pat: Pat, psk_mask: u16, k: usize, kind: u8) {
+    altered_encrypted_part_opt(pat, psk_mask, k, kind, false)
+}
+
+/// `check_rs` (used by C17): whatever the receiver reports as the remote static key after the rejected message is the
+/// sender's true public key - never bytes of a message that was not read successfully.
+pub fn altered_encrypted_part_opt(pat: Pat, psk_mask: u16, k: usize, kind: u8, check_rs: bool) {
     // the alteration is what is symbolic here (position, value, truncation length); keys are concrete, which keeps
     // the two real endpoints cheap and changes nothing for the ideal AEAD (it compares, it does not compute)
     unsafe {
@@ -128,6 +134,18 @@ pub fn altered_encrypted_part(pat: Pat, psk_mask: u16, k: usize, kind: u8) {
     // nothing of the rejected message's payload is handed out (C19) - the buffer is as it was
     assert!(out[0] == 0xEE && out[1] == 0xEE, "C03: payload bytes written for a rejected message");
     // (that the genuine message is still accepted afterwards is C07's retry harnesses)
+    if check_rs {
+        if let Some(g) = r.get_remote_static() {
+            assert!(g.len() == 4, "C17: reported remote static key has the wrong length");
+            let mut j = 0;
+            while j < 4 {
+                assert!(g[j] == rmw.s_pub[j], "C17: after a rejected message the reported remote static key is not the peer's public key");
+                j += 1;
+            }
+        } else {
+            assert!(!s0.rs_on, "C17: a remote static key known before the rejected message is no longer reported");
+        }
+    }
 }
 
 macro_rules! alt_harness {
